@@ -487,6 +487,12 @@ fn fn_matrix(container: &str, with_body: bool) -> String {
                     let attrs = [*vis, *m, virt].iter().filter(|a| !a.is_empty()).cloned().collect::<Vec<_>>().join(" ");
                     let body = if with_body { "{}" } else { ";" };
                     src.push_str(&format!("    function {}f{}{}(uint a) {} {}\n", us, n, suf, attrs, body));
+                    // the same declaration with the visibility keyword LAST (after mutability / virtual)
+                    if !vis.is_empty() && (!m.is_empty() || !virt.is_empty()) {
+                        n += 1;
+                        let attrs_rev = [virt, *m, *vis].iter().filter(|a| !a.is_empty()).cloned().collect::<Vec<_>>().join(" ");
+                        src.push_str(&format!("    function {}f{}{}(uint a) {} {}\n", us, n, suf, attrs_rev, body));
+                    }
                 }
             }
         }
